@@ -162,6 +162,26 @@ def group_removal_rule(ctx, R, rid, only=None):
     return n
 
 
+def _left_emptiness_traversal(ctx, b, fl, path):
+    """The path stepped through the plain iterator over the whole groups vector and left it where a crate `is_empty` of the
+    element answered false: it has seen a group that still holds a source."""
+    for a_, b_ in zip(path, path[1:]):
+        for lab in fl.edge_labels(a_).get(b_, []):
+            if lab[0] == "bool" and lab[2] is False and lab[1][0] == "call" and (lab[1][1] or "") in ctx.facts.bodies \
+                    and re.search(r"::is_empty$", lab[1][1]) and lab[1][2]:
+                base = strip_refs(lab[1][2][0])
+                while base[0] == "proj" and not (base[2][:2] == ("@Some", ".0") and base[1][0] == "call"
+                                                 and re.search(r"core::iter::Iterator>?::next$", base[1][1] or "")):
+                    base = strip_refs(base[1])
+                if base[0] != "proj":
+                    continue
+                nx = base[1]
+                it = strip_refs(nx[2][0])
+                if c02.plain_whole_iter(it):
+                    return True
+    return False
+
+
 def r11_3(ctx, R):
     ctx.rule("R11.3", "the unbounded merge answers Pending only while some source is pending: on every feasible path of "
                       "MergeUnbounded::poll_next that returns Pending, a group polled in this call answered Pending -- or the path has "
@@ -210,6 +230,10 @@ def r11_3(ctx, R):
                 continue          # nothing was polled: the path is the loop falling through with no iteration (len == 0 is excluded earlier)
             last_p = max(e[2] for e in polls)
             if emptiness_test_crossed(path[last_p:]):
+                continue
+            # the explicit-loop form of the test: the path left a whole-groups traversal early (some group is not empty)
+            # while the traversal's completion returns Ready(None)
+            if _left_emptiness_traversal(ctx, b, fl, path[last_p:]):
                 continue
             bad = (path, [(e[0], e[1]) for e in ev])
             break
